@@ -2,6 +2,7 @@ package harness
 
 import (
 	"bytes"
+	"crypto/sha256"
 	"fmt"
 	"math/big"
 	"reflect"
@@ -519,6 +520,47 @@ func c17Run(w *Worker, tape *simrt.Tape) *Outcome {
 			fdesc += " [vk fixed in the outer circuit]"
 		} else {
 			fdesc += " [vk supplied as witness]"
+		}
+		// challenge-binding probe (PLONK): the two opening quotients are the prover's last
+		// messages; the batching challenge of the in-circuit KZG verifier must depend on them, or
+		// they can be chosen after it is known. Observable: the scalars handed to the
+		// scalar-decomposition hints of the outer circuit must change when a quotient changes.
+		if rc.be == bePlonk && kindF >= 5 && kindF <= 7 && (strings.Contains(fdesc, "proof element BatchedProof.H ") || strings.Contains(fdesc, "proof element ZShiftedOpening.H ")) {
+			fp := func(pr any) (string, bool) {
+				n := &nemesis{q: rc.outer.ScalarField()}
+				undo := n.install()
+				var e error
+				pan := guard(func() { e = rc.eval(ccs, vk, pr, pub, fixedVk) })
+				undo()
+				_ = e
+				if pan != "" {
+					return "", false
+				}
+				h := sha256.New()
+				cnt := 0
+				for _, c := range n.calls {
+					if strings.Contains(c.Name, "decomposeScalar") || strings.Contains(c.Name, "halfGCD") {
+						for _, x := range c.In {
+							h.Write(x.Bytes())
+							h.Write([]byte{0})
+						}
+						cnt++
+					}
+				}
+				return fmt.Sprintf("%d:%x", cnt, h.Sum(nil)), cnt > 0
+			}
+			honestFP, ok1 := fp(key.proofs[si])
+			alteredFP, ok2 := fp(proof)
+			o.Evals += 2
+			if ok1 && ok2 {
+				o.probe("challenge_binding_probes")
+				if honestFP == alteredFP {
+					if o.violateOrKnown(w, "challenge-not-bound", "challenge-not-bound:"+where+":"+faultKey(fdesc), "an opening quotient of the proof was altered but every scalar the in-circuit verifier multiplies by is unchanged: the batching challenge does not depend on the quotients, so they can be chosen after it is known\nfault: "+fdesc) {
+						o.Viol.Faults = []string{fdesc}
+						return o
+					}
+				}
+			}
 		}
 		nerr, npan := rc.nativeVerify(proof, vk, pub)
 		if npan != "" {
